@@ -781,6 +781,52 @@ def _guard_polarity(test):
     return None
 
 
+def guard_cases(init, cname):
+    """what Guarded.initialize stores to exact / quasi_exact / epsilon with guard == 0 and with guard > 0: ({..}, {..}), keys 'exact',
+    'quasi_exact' (sets of True / False / '?') and 'eps' (list of statement texts)"""
+    import types
+    g = types.SimpleNamespace(name=cname)
+    single = {nm: d[0][0] for nm, d in init.assigns().items() if len(d) == 1 and isinstance(d[0][0], ast.AST)}
+
+    def pol(e):
+        if isinstance(e, ast.Name) and e.id in single:
+            return pol(single[e.id])
+        if isinstance(e, ast.Call) and isinstance(e.func, ast.Name) and e.func.id == 'bool' and len(e.args) == 1:
+            return pol(e.args[0])
+        if isinstance(e, ast.UnaryOp) and isinstance(e.op, ast.Not):
+            p_ = pol(e.operand)
+            return {'zero': 'nonzero', 'nonzero': 'zero'}.get(p_)
+        return _guard_polarity(e)
+
+    def walk(stmts, case, out):
+        for st_ in stmts:
+            if isinstance(st_, ast.If):
+                p_ = pol(st_.test)
+                if p_ is None:
+                    walk(st_.body, case, out)
+                    walk(st_.orelse, case, out)
+                else:
+                    walk(st_.body if p_ == case else st_.orelse, case, out)
+            elif isinstance(st_, ast.Assign):
+                for t_ in st_.targets:
+                    if isinstance(t_, ast.Attribute) and t_.attr in ('exact', 'quasi_exact') and isinstance(t_.value, ast.Name) and t_.value.id in ('cls', g.name):
+                        v_ = st_.value
+                        if isinstance(v_, ast.Constant) and isinstance(v_.value, bool):
+                            out.setdefault(t_.attr, set()).add(v_.value)
+                        elif pol(v_) is not None:
+                            out.setdefault(t_.attr, set()).add(pol(v_) == case)
+                        else:
+                            out.setdefault(t_.attr, set()).add('?')
+                    if unparse(t_) in ('cls.epsilon', 'cls.epsilon._value'):
+                        out.setdefault('eps', []).append(unparse(st_))
+            elif isinstance(st_, (ast.For, ast.While, ast.With, ast.Try)):
+                walk(getattr(st_, 'body', []), case, out)
+    z, nz = {}, {}
+    walk(init.node.body, 'zero', z)
+    walk(init.node.body, 'nonzero', nz)
+    return z, nz
+
+
 def r24_guard0_equivalence(ctx):
     R = 'R24'
     summ = getattr(ctx, '_value_summaries', None)
@@ -817,18 +863,19 @@ def r24_guard0_equivalence(ctx):
     ctx.floor(R, 'sibling operations compared', n, 10)
     # flags: guard == 0 branch of initialize sets exact = quasi_exact = False and epsilon = 1 ulp
     init = g.methods['initialize']
-    ifs = [s for s in init.own_nodes() if isinstance(s, ast.If) and _guard_polarity(s.test) is not None
-           and any(isinstance(x, ast.Attribute) and isinstance(x.ctx, ast.Store) and x.attr in ('exact', 'quasi_exact') for y in s.body + s.orelse for x in ast.walk(y))]
-    need(len(ifs) == 1, 'R24: no single `if cls.guard == 0:` (or equivalent) setting the exactness flags found in Guarded.initialize')
-    zero_first = _guard_polarity(ifs[0].test) == 'zero'
-    body = [unparse(s) for s in (ifs[0].body if zero_first else ifs[0].orelse)]
-    other = [unparse(s) for s in (ifs[0].orelse if zero_first else ifs[0].body)]
-    want = {'cls.quasi_exact = False', 'cls.exact = False', 'cls.epsilon = cls(0)', 'cls.epsilon._value = 1'}
-    contra = {'cls.exact = True', 'cls.quasi_exact = True'}
-    ctx.check(want <= set(body) and not (contra & set(body)), R, ifs[0], init, 'with guard == 0 Guarded carries the flags of Fixed (inexact, epsilon = 1 unit)',
-              '; '.join(body), 'guard-0 branch of initialize is %s' % body)
-    ctx.check({'cls.quasi_exact = True', 'cls.exact = True'} <= set(other) and not ({'cls.exact = False', 'cls.quasi_exact = False'} & set(other)), R, ifs[0], init,
-              'with guard digits Guarded declares itself (quasi-)exact', '; '.join(other), 'guard>0 branch of initialize is %s' % other)
+    # decided by walking initialize() once with guard == 0 and once with guard > 0: tests on the guard (directly, through a local bound
+    # once to such a test, `bool(cls.guard)`, either polarity) select a branch, every other test takes both; what is stored to the two
+    # flags and to epsilon in each case is collected.  Independent of whether the flags are set in the branches of an if or from a
+    # boolean expression.
+    z, nz = guard_cases(init, g.name)
+    need('exact' in z or 'exact' in nz, 'R24: Guarded.initialize never stores the exactness flags')
+    ctx.check(z.get('exact') == {False} and z.get('quasi_exact') == {False} and z.get('eps') == ['cls.epsilon = cls(0)', 'cls.epsilon._value = 1'],
+              R, init.node, init, 'with guard == 0 Guarded carries the flags of Fixed (inexact, epsilon = 1 unit)',
+              'guard == 0: exact = quasi_exact = False, epsilon = cls(0) with _value 1',
+              'with guard == 0 initialize stores exact=%s quasi_exact=%s epsilon=%s' % (sorted(z.get('exact', []), key=str), sorted(z.get('quasi_exact', []), key=str), z.get('eps')))
+    ctx.check(nz.get('exact') == {True} and nz.get('quasi_exact') == {True}, R, init.node, init,
+              'with guard digits Guarded declares itself (quasi-)exact', 'guard > 0: exact = quasi_exact = True',
+              'with guard > 0 initialize stores exact=%s quasi_exact=%s' % (sorted(nz.get('exact', []), key=str), sorted(nz.get('quasi_exact', []), key=str)))
     fxc = ctx.repo.cls(FIXED)
     okf = isinstance(fxc.class_attrs.get('exact'), ast.Constant) and fxc.class_attrs['exact'].value is False \
         and isinstance(fxc.class_attrs.get('quasi_exact'), ast.Constant) and fxc.class_attrs['quasi_exact'].value is False
@@ -1117,7 +1164,7 @@ def r25_printing(ctx):
                   'the display split does not use 10 ** cls.display', nontrivial=False)
     gd = repo.cls(GUARDED)
     # the underscore format for display > precision
-    ok = any('d_%0' in (const_str(x) or '') for n in gd.methods['initialize'].own_nodes() if isinstance(n, ast.Assign)
+    ok = any('_%0' in (const_str(x) or '').replace('%%', '%') for n in gd.methods['initialize'].own_nodes() if isinstance(n, (ast.Assign, ast.AugAssign))
              for x in ast.walk(n.value))
     ctx.check(ok, R, gd.methods['initialize'].node, gd.methods['initialize'], 'guard digits shown beyond the precision are set off by an underscore',
               '"%d.%0<p>d_%0<g>d" format when display > precision', 'underscore format missing', nontrivial=False)
@@ -1131,14 +1178,31 @@ def r25_printing(ctx):
               and isinstance(n.value.left, ast.BinOp) and isinstance(n.value.left.op, ast.Mult) and 'numerator' in unparse(n.value.left)
               and 'denominator' in unparse(n.value.right)]
     ok = len(adds) == 1 and len(floors) == 1 and adds[0].lineno < floors[0].lineno
+    R_attr = S_attr0 = None
     if ok:
         R_attr = adds[0].value.right.attr
         S_attr = [x.attr for x in ast.walk(floors[0].value.left) if isinstance(x, ast.Attribute) and x.attr not in ('numerator', 'denominator')]
+        S_attr0 = S_attr[0] if S_attr else None
+    if not ok or S_attr0 is None:
+        R_attr = S_attr0 = None
+        # the same computation written through other locals: read it off the (conditions -> result) summary of __str__ - some path
+        # prints the quantity (self + cls.<r>).numerator * cls.<s> // (self + cls.<r>).denominator
+        import re as _re
+        from ..symret import guarded_returns as _gr
+        pat = _re.compile(r"\(self \+ (?:Rational|cls|self)\.(\w+)\)\.numerator \* (?:Rational|cls|self)\.(\w+) // \(self \+ (?:Rational|cls|self)\.(\w+)\)\.denominator")
+        for conds_, e_, _r in (_gr(s.node, deep_ifexp=True) or []):
+            if e_ is None:
+                continue
+            m_ = pat.search(unparse(e_))
+            if m_ and m_.group(1) == m_.group(3):
+                R_attr, S_attr0 = m_.group(1), m_.group(2)
+        ok = R_attr is not None
+    if ok:
         rdef = txt.get('cls.' + R_attr)
-        sdef = txt.get('cls.' + S_attr[0]) if S_attr else None
+        sdef = txt.get('cls.' + S_attr0) if S_attr0 else None
         ok = rdef is not None and sdef is not None and isinstance(rdef, ast.Call) and unparse(rdef.func) == 'Fraction' and len(rdef.args) == 2 \
             and isinstance(rdef.args[0], ast.Constant) and rdef.args[0].value == 1 \
-            and unparse(rdef.args[1]).replace(' ', '') in ('cls.%s*2' % S_attr[0], '2*cls.%s' % S_attr[0]) \
+            and unparse(rdef.args[1]).replace(' ', '') in ('cls.%s*2' % S_attr0, '2*cls.%s' % S_attr0) \
             and isinstance(sdef, ast.BinOp) and isinstance(sdef.op, ast.Pow) and isinstance(sdef.left, ast.Constant) and sdef.left.value == 10
     ctx.check(ok, R, s.node, s, 'Rational.__str__ rounds half-up: adds half a display unit, then floors',
               'v = self + cls.<r>; v = v.numerator * cls.<s> // v.denominator with <r> = Fraction(1, 2 * <s>), <s> = 10 ** display digits',
